@@ -6,15 +6,96 @@ namespace C10
 open Py
 
 /-- a numeric reply (first parameter = the bot's nick) from the server: only the `IrcState` handler acts -/
-theorem feed_server {b : Bot} {p : Str} (hp : ServerOK p) (hne : p ≠ b.nick) (cmd : Str) (rest : List Str)
+theorem feed_server {b : Bot} {p : Str} (hi : IsupOK b.isup) (hp : ServerOK p) (hne : p ≠ b.nick) (cmd : Str) (rest : List Str)
     (hirc : b.ircCmd ⟨p, cmd, b.nick :: rest⟩ = (b, false)) :
     (b.feed ⟨p, cmd, b.nick :: rest⟩).1 = (b.stateCmd ⟨p, cmd, b.nick :: rest⟩).1 := by
   have hpu : b.pfxUpd ⟨p, cmd, b.nick :: rest⟩ = b := pfxUpd_server hp.noBang hne _ _
   by_cases hs : cmd ∈ Gen.nickSetters
-  · rw [feed_setter b _ hne hs b.nick rest rfl rfl (by rw [hpu]) (by rw [hpu, hirc])]
+  · rw [feed_setter b _ (tagOK_of_ok hi _) hne hs b.nick rest rfl rfl (by rw [hpu]) (by rw [hpu, hirc])]
     rw [hpu, hirc, prelude_server hp.noBang]
-  · rw [feed_plain b _ hne hs (by rw [hpu, hirc])]
+  · rw [feed_plain b _ (tagOK_of_ok hi _) hne hs (by rw [hpu, hirc])]
     rw [hpu, hirc, prelude_server hp.noBang]
+
+/-! ### RPL_ISUPPORT -/
+
+theorem cmdOf_005 : cmdOf "005".toList = .n005 := by decide
+
+theorem token005_other (b : Bot) (name value : Str) (hn : '=' ∉ name)
+    (h1 : asciiLower name ≠ "chantypes".toList) (h2 : asciiLower name ≠ "channellen".toList) :
+    b.token005 (name ++ '=' :: value) = b := by
+  unfold Bot.token005
+  rw [split1_append _ hn]
+  dsimp only
+  rw [if_neg h1, if_neg h2]
+
+theorem token005_chantypes (b : Bot) (value : Str) :
+    b.token005 ("CHANTYPES=".toList ++ value) = { b with isup := { b.isup with chantypes := some (some value) } } := by
+  have e : "CHANTYPES=".toList ++ value = "CHANTYPES".toList ++ '=' :: value := by simp
+  unfold Bot.token005
+  rw [e, split1_append _ (by decide)]
+  have : asciiLower "CHANTYPES".toList = "chantypes".toList := by decide
+  dsimp only
+  rw [if_pos this]
+
+theorem token005_channellen (b : Bot) (value : Str) (n : Int) (hv : pyInt value = some n) :
+    b.token005 ("CHANNELLEN=".toList ++ value) = { b with isup := { b.isup with channellen := some (some n) } } := by
+  have e : "CHANNELLEN=".toList ++ value = "CHANNELLEN".toList ++ '=' :: value := by simp
+  unfold Bot.token005
+  rw [e, split1_append _ (by decide)]
+  have h1 : asciiLower "CHANNELLEN".toList = "channellen".toList := by decide
+  have h2 : ¬ asciiLower "CHANNELLEN".toList = "chantypes".toList := by decide
+  dsimp only
+  rw [if_neg h2, if_pos h1, hv]
+
+theorem isupOK_announced {s : Srv} (hw : SrvWF s) {n : Int} (hn : 50 ≤ n) :
+    IsupOK { chantypes := some (some s.cfg.chantypes), channellen := some (some n) } := by
+  have hcfg := cfgOK_of_valid hw.cfg
+  exact ⟨Or.inr ⟨_, rfl, hcfg.hash, hcfg.amp⟩, Or.inr ⟨n, rfl, hn⟩⟩
+
+/-- the server's RPL_ISUPPORT tells the bot CHANTYPES and CHANNELLEN (the other tokens are not read) -/
+theorem recv_isupportEv {cfg : Cfg} {b : Bot} (hv : cfg.valid = true) (hbn : NickOK b.nick) (hi : IsupOK b.isup) :
+    ∃ n, pyInt cfg.channellen = some n ∧ 50 ≤ n ∧
+      b.recv (isupportEv cfg b.nick) = { b with isup := { chantypes := some (some cfg.chantypes), channellen := some (some n) } } := by
+  have hcfg := cfgOK_of_valid hv
+  obtain ⟨n, hpn, hn50⟩ := hcfg.len
+  refine ⟨n, hpn, hn50, ?_⟩
+  have hsv := serverOK_of_cfg hv
+  have hne : cfg.server ≠ b.nick := server_ne_nick hsv hbn
+  unfold isupportEv
+  simp only [recv_emit]
+  have hfeed := feed_server (b := b) hi hsv hne "005".toList
+    ["CHANTYPES=".toList ++ cfg.chantypes, "CHANNELLEN=".toList ++ cfg.channellen,
+     "PREFIX=(ohv)@%+".toList, "CHANMODES=beIq,k,l,imnpstrCR".toList, "CASEMAPPING=rfc1459".toList, "NICKLEN=30".toList,
+     "are supported by this server".toList] (by simp only [Bot.ircCmd, cmdOf_005])
+  rw [hfeed]
+  simp only [Bot.stateCmd, cmdOf_005, Bot.do005, List.drop_succ_cons, List.drop_zero, List.dropLast, List.foldl_cons, List.foldl_nil]
+  rw [token005_chantypes, token005_channellen _ _ n hpn]
+  have t1 : ∀ b' : Bot, b'.token005 "PREFIX=(ohv)@%+".toList = b' := fun b' =>
+    token005_other b' "PREFIX".toList "(ohv)@%+".toList (by decide) (by decide) (by decide)
+  have t2 : ∀ b' : Bot, b'.token005 "CHANMODES=beIq,k,l,imnpstrCR".toList = b' := fun b' =>
+    token005_other b' "CHANMODES".toList "beIq,k,l,imnpstrCR".toList (by decide) (by decide) (by decide)
+  have t3 : ∀ b' : Bot, b'.token005 "CASEMAPPING=rfc1459".toList = b' := fun b' =>
+    token005_other b' "CASEMAPPING".toList "rfc1459".toList (by decide) (by decide) (by decide)
+  have t4 : ∀ b' : Bot, b'.token005 "NICKLEN=30".toList = b' := fun b' =>
+    token005_other b' "NICKLEN".toList "30".toList (by decide) (by decide) (by decide)
+  rw [t1, t2, t3, t4]
+
+theorem recv_isupport {s : Srv} {b : Bot} (hw : SrvWF s) (hn : b.nick = s.bot) (hi : IsupOK b.isup) :
+    ∃ n, pyInt s.cfg.channellen = some n ∧ 50 ≤ n ∧
+      b.recv s.isupport = { b with isup := { chantypes := some (some s.cfg.chantypes), channellen := some (some n) } } := by
+  have hbn : NickOK b.nick := by rw [hn]; exact hw.botNickOK
+  obtain ⟨n, h1, h2, h3⟩ := recv_isupportEv hw.cfg hbn hi
+  exact ⟨n, h1, h2, by unfold Srv.isupport; rw [← hn]; exact h3⟩
+
+theorem coupled_isup {s : Srv} {b : Bot} (hc : Coupled s b) (i : Isup) (hi : IsupOK i) : Coupled s { b with isup := i } :=
+  ⟨hc.nick, hc.chans, hc.hosts, hc.pfx, hc.cfgNick, hc.cfgIdent, hi⟩
+
+theorem coupled_isupport {s : Srv} {b : Bot} (hw : SrvWF s) (hc : Coupled s b) :
+    Coupled (s.step .isupport).1 (b.recvAll (s.step .isupport).2) := by
+  simp only [Srv.step, recvAll_cons, recvAll_nil]
+  obtain ⟨n, _, hn50, hr⟩ := recv_isupport hw hc.nick hc.isup
+  rw [hr]
+  exact coupled_isup hc _ (isupOK_announced hw hn50)
 
 /-! ### reconnect -/
 
@@ -31,22 +112,29 @@ theorem coupled_reconnect {s : Srv} {b : Bot} (hw : SrvWF s) (hc : Coupled s b) 
         Option.isNone_iff_eq_none] at hcond
       rw [Srv.user_eq] at hcond
       have hsv := serverOK_of_cfg hw.cfg
-      have hcfg := hw.cfg
-      unfold Cfg.valid at hcfg
-      simp only [Bool.and_eq_true] at hcfg
-      have hbn : NickOK s.cfg.botNick := nickOK_of_valid hcfg.1.1.1.1
+      have hcfg := cfgOK_of_valid hw.cfg
+      have hbn : NickOK s.cfg.botNick := nickOK_of_valid hcfg.nick
       -- the bot after the reset and the welcome
       have hreset : b.reset = Bot.init s.cfg.botNick s.cfg.botIdent := by
         unfold Bot.reset; rw [hc.cfgNick, hc.cfgIdent]
       have hne : s.cfg.server ≠ (Bot.init s.cfg.botNick s.cfg.botIdent).nick := server_ne_nick hsv hbn
-      have hfeed := feed_server (b := Bot.init s.cfg.botNick s.cfg.botIdent) hsv hne "001".toList ["Welcome".toList]
+      have hi0 : IsupOK (Bot.init s.cfg.botNick s.cfg.botIdent).isup := ⟨Or.inl rfl, Or.inl rfl⟩
+      have hfeed := feed_server (b := Bot.init s.cfg.botNick s.cfg.botIdent) hi0 hsv hne "001".toList ["Welcome".toList]
         (by simp only [Bot.ircCmd, cmdOf_001])
-      simp only [recvAll_cons, Bot.recv, recvAll_nil, hreset, emit]
+      have hrr : b.recv Ev.reset = b.reset := rfl
+      simp only [recvAll_cons, recvAll_nil, hrr, hreset]
       have e : (Bot.init s.cfg.botNick s.cfg.botIdent).nick = s.cfg.botNick := rfl
       rw [e] at hfeed
-      rw [hfeed]
-      simp only [Bot.stateCmd, cmdOf_001]
-      refine ⟨rfl, ?_, ?_, ?_, rfl, rfl⟩
+      have e1 : ((Bot.init s.cfg.botNick s.cfg.botIdent).recv (emit s.cfg.server "001" [s.cfg.botNick, "Welcome".toList])) =
+          Bot.init s.cfg.botNick s.cfg.botIdent := by
+        simp only [recv_emit]
+        rw [hfeed]
+        simp only [Bot.stateCmd, cmdOf_001]
+      rw [e1]
+      obtain ⟨n5, _, hn50, hr⟩ := recv_isupportEv (cfg := s.cfg) (b := Bot.init s.cfg.botNick s.cfg.botIdent) hw.cfg hbn hi0
+      rw [e] at hr
+      rw [hr]
+      refine ⟨rfl, ?_, ?_, ?_, rfl, rfl, isupOK_announced hw hn50⟩
       · intro kc
         show ChanRel _ kc (aget (s.dropEverywhere s.botKey).chans kc) none
         cases hsc' : aget (s.dropEverywhere s.botKey).chans kc with
